@@ -76,6 +76,12 @@ func simplifyCurve(curve Path,
 	if len(curve) == 0 {
 		return nil
 	}
+	if len(curve) < 3 {
+		// There is nothing to remove, and the scan below only ends once it
+		// has looked at a third point.
+		out = append(out, curve...)
+		return out
+	}
 
 	i := 0
 	for {
